@@ -139,7 +139,7 @@ func checkC02(ctx *Ctx) {
 		ctx.SetCurrent("C02 strace lane")
 		c02Strace(ctx)
 	}
-	nw := ctx.N(6, 48)
+	nw := ctx.N(18, 96)
 	policies := []string{"always", "everysec", "no"}
 	for wi := 0; wi < nw; wi++ {
 		if !ctx.Mine(wi) {
